@@ -11,6 +11,7 @@ mod seglog;
 mod shards;
 mod iohook;
 mod ovl;
+mod overflow;
 mod stress;
 mod triepos;
 mod locksdemo;
@@ -64,6 +65,7 @@ fn main() {
         "shards" => shards::run(seed, cases, &mut sink),
         "delta" => delta::run(seed, cases, &mut sink),
         "delta-log" => delta::run_log(seed, cases, &mut sink),
+        "overflow" => overflow::run(seed, cases, &mut sink),
         "core-pp" => core_pp::run(seed, cases, &mut sink),
         "core-mp" => core_mp::run(seed, cases, &mut sink),
         "core-mp-corpus" => {
